@@ -123,6 +123,43 @@ def field_writers(facts, adt_path, crates=None):
     return out
 
 
+def helpers_only_of(facts, crate, is_root):
+    """ids of the non-test bodies of `crate` that no call chain from an entry point of the crate (a pub function, a
+    trait-impl method) reaches except through a root: the roots themselves and the private helpers (and closures) that
+    serve only them.  Edges: direct calls with a resolved or declared callee; a closure belongs to its parent."""
+    bodies = {bid: b for bid, b in facts.bodies.items()
+              if facts.body_unit[bid][0] == crate and not facts.body_unit[bid][1] and "::promoted[" not in bid}
+    succ = {bid: set() for bid in bodies}
+    for bid, b in bodies.items():
+        for blk in b["blocks"]:
+            t = blk["term"]
+            if t["k"] == "call" and "fn" in t["func"]:
+                fn = t["func"]["fn"]
+                for cid in (fn.get("resolved", {}).get("id"), fn.get("id")):
+                    if cid in bodies:
+                        succ[bid].add(cid)
+            for st in blk["stmts"]:
+                if st["k"] == "assign" and st["rv"].get("k") == "agg" and st["rv"].get("agg") == "closure":
+                    cid = st["rv"].get("closure") or st["rv"].get("def")
+                    if cid in bodies:
+                        succ[bid].add(cid)
+        par = b.get("parent")
+        if b["def_kind"] == "Closure" and par in bodies:
+            succ[par].add(bid)
+    roots = {bid for bid, b in bodies.items() if is_root(b)}
+    entries = [bid for bid, b in bodies.items() if bid not in roots and b["def_kind"] != "Closure"
+               and (b.get("vis") == "pub" or b.get("impl_trait"))]
+    reach_other = set()
+    work = list(entries)
+    while work:
+        x = work.pop()
+        if x in reach_other or x in roots:
+            continue
+        reach_other.add(x)
+        work.extend(succ[x])
+    return {bid for bid in bodies if bid not in reach_other}
+
+
 def call_is(t, trait, name):
     """is term t the result of calling trait::name (statically dispatched to an impl or not)?"""
     if not (isinstance(t, tuple) and t and t[0] == "call"):
